@@ -199,6 +199,9 @@ class Checker:
             json.dump(ev, f, indent=1, default=str)
 
 
+FLOAT_EXACT = {"C01", "C02", "C03", "C04", "C05", "C06", "C08", "C09", "C10", "C11", "C13", "C15", "C16", "C20"}
+
+
 def _func_of_site(site):
     parts = (site or "").split(":")
     return parts[1] if len(parts) >= 2 else site
@@ -241,7 +244,20 @@ def main(argv):
         from . import ctx as _ctx
 
         _ctx.SUSPICIOUS.clear()
+        del _ctx.NARROWINGS[:]
+        _ctx.NARROW_SEEN.clear()
         mod.run(ck)
+        # float-width facet: on every path the rules of this property interpreted, no float64 value is squeezed through float32
+        # (a staging buffer created without dtype, .float(), torch.Tensor(array), python floats stored without dtype).  A necessary
+        # condition of every clause that promises an exact formula / bit-identical values for float64 data.
+        if pid in FLOAT_EXACT:
+            rule_fw = "%s.FW" % pid
+            for site, what, tag in _ctx.NARROWINGS[:12]:
+                ck.violation(rule_fw, "no float32 intermediate [%s]" % (tag or ""), site,
+                             "%s: the values come out rounded to single precision (relative error ~6e-8 per value, amplified wherever a large constant part cancels), "
+                             "not the float64 quantity the property names" % what, key="%s|%s" % (rule_fw, _func_of_site(site)))
+            if not _ctx.NARROWINGS:
+                ck.ok(rule_fw, "no float32 intermediate on the interpreted paths", "")
         # feasible paths that end in an error raised by the language itself (not by a `raise` statement): recorded as evidence;
         # the rules decide which of them are violations (several contexts provoke them on purpose)
         seen = {}
